@@ -82,6 +82,13 @@ func init() {
 }
 
 func init() {
+	// heapraw: the malformed files of heapmut, full scan output compared with the model (spec silent)
+	core.Register("heapraw", func(args []string) string {
+		return showEntries(pgdump.ReadTuples(unhex(args[1]), args[0] == "1"))
+	})
+}
+
+func init() {
 	core.Register("pagedirect", func(args []string) string {
 		return showEntries(pgdump.ParsePage(unhex(args[0])))
 	})
